@@ -1134,10 +1134,26 @@ func c06RandOp(rng *rand.Rand, meta bool) string {
 	}
 }
 
-// corpus: the hand-confirmed deviations first (each is also a closed Lean witness)
-var c06Corpus = [][]string{
-	{"set 11 k0|i64:5|||||", "set 11 k0|i64:5|||||", "get k0"},
-	{"push k0:1", "u32del k0:1", "issw"},
+// corpus: one case per confirmed deviation from the documented semantics (each is also a Lean
+// witness in Hv/Props/C06.lean), run on an in-memory and on a persistent swamp
+type c06CorpusCase struct {
+	kinds []string
+	ops   []string
+}
+
+var c06Corpus = []c06CorpusCase{
+	{[]string{"mem", "p1"}, []string{"set 11 k0|i64:5|||||", "set 11 k0|i64:5|||||", "get k0"}},
+	{[]string{"mem", "p1"}, []string{"set 11 k0|i64:5||u1|||", "set 11 k0|i64:5||u1|||"}},
+	{[]string{"mem", "p1"}, []string{"set 11 k0|i64:5|||||a-500000000", "inc i64 k0 1 - - -", "get k0"}},
+	{[]string{"mem", "p1"}, []string{"set 11 k0|i64:5|||||", "set 11 k0|void|||||", "get k0"}},
+	{[]string{"mem", "p1"}, []string{"set 11 k0|i64:5|||||", "push k0:1", "size k0", "get k0"}},
+	{[]string{"mem", "p1"}, []string{"set 11 k0|u32s:1|||||", "set 11 k0|u32s:2|||||", "get k0"}},
+	{[]string{"mem", "p1"}, []string{"push k0:1", "u32del k0:1", "issw"}},
+	{[]string{"p0"}, []string{"set 11 k0|i64:5|||||", "set 11 k1|i64:6|||||", "u32del k0:1", "get k0 k1"}},
+	{[]string{"mem", "p1"}, []string{"inc i64 k0 1 eq:5 1|u1|0|| -", "issw", "inc u8 k0 1 - - -", "set 11 k0|str:61|||||", "get k0"}},
+	{[]string{"mem", "p1"}, []string{"set 11 k0|u8:1|||||", "inc u8 k0 1 eq:5 - 0||1|u2|b3600000000000", "get k0"}},
+	{[]string{"mem", "p1"}, []string{"size k0", "issw", "count"}},
+	{[]string{"mem", "p1"}, []string{"arek k0 k1", "count", "set 00 k0|i64:5|||||", "set 01 k0|i64:5|||||"}},
 }
 
 func c06Gen(rng *rand.Rand, tier string, w *bufio.Writer) {
@@ -1154,8 +1170,9 @@ func c06Gen(rng *rand.Rand, tier string, w *bufio.Writer) {
 		}
 	}
 	for _, c := range c06Corpus {
-		emit("mem", c)
-		emit("p1", c)
+		for _, k := range c.kinds {
+			emit(k, c.ops)
+		}
 	}
 	for i := 0; i < cases; i++ {
 		kind := c06Pick(rng, []string{"mem", "mem", "p0", "p1", "p1"})
